@@ -16,13 +16,13 @@ RandLines(j) == [i \in 1..RandomElement(MinLines..MaxLines) |-> RandomElement(Li
 DehydrateSim ==
     /\ phase = "collect" /\ pos <= N /\ inflight.c = 0
     /\ \E k \in Pick(Kinds), m \in Pick(IF MaxElems = 0 THEN {FALSE} ELSE BOOLEAN),
-          fl \in Pick(IF MayFail THEN {FALSE, FALSE, FALSE, TRUE} ELSE {FALSE}) :
+          fl \in Pick(IF MayFail THEN {FALSE, FALSE, FALSE, TRUE} ELSE {FALSE}),
+          oc \in Pick(OutcomeSet \cup {"crash"}), bk \in Pick(BackedSet) :
        \E sa \in Pick(IF m THEN SaveAsOf(k) \ {"file"} ELSE SaveAsOf(k)),
           n \in Pick(IF m THEN 1..MaxElems ELSE {1}) :
        \E lss \in {[j \in 1..n |-> RandLines(j)]} :
-          DehydrateWith(IF fl THEN [kind |-> "datasource", multi |-> FALSE, failed |-> TRUE, saveas |-> "none",
-                                    elems |-> <<>>]
-                        ELSE [kind |-> k, multi |-> m, failed |-> FALSE, saveas |-> sa,
+          DehydrateWith(IF fl THEN NoValue(oc, bk)
+                        ELSE [kind |-> k, multi |-> m, failed |-> FALSE, outcome |-> "ok", backed |-> bk, saveas |-> sa,
                               elems |-> [j \in 1..n |-> Elem(lss[j], CmdOf(k, pos, j), ArgsOf(k, pos, j, m))]])
 
 CorruptSim ==
